@@ -275,12 +275,11 @@ pub fn window_oracles(log: &[Event], built: &Built, lay: &Layout, mode: &str) ->
                                 continue;
                             }
                             let earlier_tl = i.is_tl && sibs.iter().position(|x| x == t) < sibs.iter().position(|x| *x == b.tag);
-                            if (!i.is_tl || earlier_tl) && !done(*t) {
+                            if ((!i.is_tl && mode != "tlonly") || earlier_tl) && !done(*t) {
                                 v.push(("C12".into(), format!("event {}: thread-local {} starts before {} has finished", k, e.inst_str(), t)));
                             }
                         }
-                        let want = if mode == "seq" || mode == "tl" { 'c' } else { 'c' };
-                        if e.th != want && b.parent.is_none() {
+                        if e.th != 'c' && b.parent.is_none() {
                             v.push(("C12".into(), format!("event {}: thread-local {} runs on thread kind '{}' instead of the caller", k, e.inst_str(), e.th)));
                         }
                         if e.th != 'c' && b.parent.is_some() {
